@@ -613,6 +613,11 @@ class Program:
                     # unwind copies of `place = value` (drop-and-replace) repeat the normal-path write
                     continue
                 for i, s in enumerate(blk["stmts"]):
+                    if s["k"] in ("=", "setdiscr") and s["lhs"]["p"] == ["*"]:
+                        # whole-value write through a `&mut T` reference (T a local ADT): key (T, "*")
+                        lt = body.locals[s["lhs"]["l"]]["ty"]
+                        if lt.startswith("&mut ") and lt[5:] in self.adts:
+                            w[(lt[5:], "*")].append(dict(fn=key, bb=b, idx=i, kind="assign", exact=True, stmt=s))
                     if s["k"] in ("=", "setdiscr"):
                         fields = [p for p in s["lhs"]["p"] if isinstance(p, dict) and "f" in p and p.get("a")]
                         for n, p in enumerate(fields):
